@@ -11,6 +11,8 @@
   C03.f end of walk  a step function returns None only on the true side of `<header count | edns_count | rrs_left> == 0`
   C03.g reader premise  rr_ip / rr_rd read 4 / 16 bytes unchecked: every accepting path of the validator on which the type is A / AAAA
                      passes the `rdlen == 4 / 16` test (shared with C02.a)
+  C03.h trusted asserts  every assertion in RRIterator::skip_name is implied by the validator's guarantee behind a name position
+                     (len - q >= 6 at a pointer, len - q >= L + 6 at a label)
   C03.c layout       (see rules/layout.py) the readers' field tuples equal the RFC table, the validator's and the builder's
 
 Not decided here: that the walk visits exactly the records present for every accepted packet, name
@@ -146,6 +148,7 @@ def run(ctx):
         layout.check_readers(ctx, facts, cfg, 'C03.c')
         pointer_budget_rule(ctx, facts, cfg)
         none_rule(ctx, facts, cfg)
+        trusted_assert_rule(ctx, facts, cfg)
         from rules import C02
         C02.address_size_rule(ctx, facts, cfg, 'C03.g')
     ctx.assume('cursor invariants of accepted packets (offset <= offset_next <= len) are run-time facts and are not decided here')
@@ -197,6 +200,79 @@ def none_rule(ctx, facts, cfg):
                                   site=st.get('at'), config=cfg)
     if n < 7:
         ctx.violation(rid, '<floor>', 'None exits', 'found %d None exits in the step functions, expected 7' % n, kind='below-floor')
+
+
+def trusted_assert_rule(ctx, facts, cfg):
+    """C03.h: an assertion inside the trusted name skipper (RRIterator::skip_name, used for question AND record names) must be implied by
+    what the validator guarantees at any position q of an accepted name: the rest of the name from q fits and at least the 4-byte fixed
+    part of a question follows it, i.e.  len - q >= 2 + 4  at a pointer and  len - q >= 1 + L + 1 + 4  at a label of length L <= 63.
+    An assertion asking for more makes a walk over an accepted packet panic."""
+    rid = 'C03.h'
+    from analysis.lin import CSet, lin, ge, le, Con
+    key = "rr_iterator::RRIterator::<'t>::skip_name"
+    f = facts.fn(key)
+    if f is None:
+        ctx.missing(rid, key)
+        return
+    defs = F.single_defs(f)
+    LEN, OFF, LAB = lin('LEN'), lin('OFF'), lin('L')
+
+    def to_lin(e):
+        while e[0] == 'cast':
+            e = e[2]
+        if e[0] == 'const' and isinstance(e[1], int):
+            return lin(e[1]), False
+        if e[0] == 'call' and e[1].endswith('::len'):
+            return LEN, False
+        if e[0] == 'unop' and e[1] == 'PtrMetadata':
+            return LEN, False
+        if e[0] == 'local':
+            return (OFF, False) if e[1] == 2 or dict(f['debug']).get(e[1]) == 'offset' else (None, False)
+        if e[0] == 'load' and any(pj.get('k') == 'index' for pj in e[1].get('proj', [])):
+            return LAB, True
+        if e[0] == 'binop' and e[1] in ('Add', 'Sub', 'AddWithOverflow', 'SubWithOverflow'):
+            a, la = to_lin(e[2])
+            b, lb = to_lin(e[3])
+            if a is None or b is None:
+                return None, False
+            return (a + b if e[1].startswith('Add') else a - b), la or lb
+        if e[0] == 'field' and len(e) > 2 and isinstance(e[2], tuple):
+            return to_lin(e[2])
+        return None, False
+    n = 0
+    for bi, b in F.blocks(f):
+        t = b['term']
+        if t['k'] != 'switch':
+            continue
+        fal = next((tb for v, tb in t['targets'] if v == 0), None)
+        if fal is None:
+            continue
+        pt = f['blocks'][fal]['term']
+        if not (pt['k'] == 'call' and (F.call_path(pt) or '').startswith('core::panicking::panic')):
+            continue
+        e = F.expr(f, defs, t['discr'])
+        if not (e[0] == 'binop' and e[1] in ('Gt', 'Ge', 'Lt', 'Le')):
+            continue
+        a, la = to_lin(e[2])
+        c, lc = to_lin(e[3])
+        n += 1
+        if a is None or c is None:
+            ctx.violation(rid, key, 'assert@%d' % n, 'the assertion at %s in skip_name could not be expressed over (len, offset, label length)' % t.get('at'), kind='undecided', site=t.get('at'), config=cfg)
+            continue
+        want = {'Gt': ge(a - c, 1), 'Ge': ge(a - c, 0), 'Lt': ge(c - a, 1), 'Le': ge(c - a, 0)}[e[1]]
+        G = CSet()
+        G.add(ge(OFF, 0))
+        if la or lc:
+            G.add(ge(LAB, 0)); G.add(le(LAB, 63)); G.add(ge(LEN - OFF, LAB + 6))
+        else:
+            G.add(ge(LEN - OFF, 6))
+        ok = G.entails(want)
+        ctx.instance(rid, 'skip_name: assertion at %s (%s) is implied by the validator\'s guarantee (%s)' % (t.get('at'), want, 'len - q >= L + 6' if (la or lc) else 'len - q >= 6'), ok=ok, site=t.get('at'))
+        if not ok:
+            ctx.violation(rid, key, 'assert-too-strong@%d' % n, 'the assertion at %s in skip_name (%s) asks for more than the validator guarantees behind a name (a question name is followed by only 4 bytes): '
+                          'walking an accepted packet can panic' % (t.get('at'), want), site=t.get('at'), config=cfg)
+    if n < 2:
+        ctx.violation(rid, '<floor>', 'assertions in skip_name', 'found %d assertions in skip_name, expected 2' % n, kind='below-floor')
 
 
 def pairing_rule(ctx, facts, cfg, rid):
